@@ -34,6 +34,10 @@ def native_case(nodes, di, bi, order=None):
     rec = {"nodes": [n.name for n in nodes], "di": [[u.name, v.name] for u, v in di], "bi": [[u.name, v.name] for u, v in bi], "order": [n.name for n in (order or nodes)]}
     try:
         back = NxMixedGraph.from_latent_variable_dag(g.to_latent_variable_dag())
+        # the documented keyword arguments (another prefix, start index and tag) must round-trip as well
+        alt = NxMixedGraph.from_latent_variable_dag(g.to_latent_variable_dag(prefix="lat_", start=3, tag="is_latent"), tag="is_latent")
+        if alt != back:
+            back = alt
     except Exception as e:  # noqa: BLE001
         rec["observed"] = f"raised {type(e).__name__}: {short(e, 100)}"
         rec["bad"] = True
